@@ -44,6 +44,8 @@ RECTANGULAR_DEFECT = ('Color488Code', 'Color666ToricCode')
 def sizes(cls: str, tier: str) -> List[Tuple[int, ...]]:
     dim = getattr(pc, cls).dimension
     if tier == 'quick':
+        # (3-D: also a difference of 2 between each pair of sides where n stays below ~50, and for the hollow
+        # classes sizes whose hole is non-trivial)
         # every class: a non-square / non-cubic size for each ordering of the sides the constructors
         # distinguish (L_y > L_x, L_x > L_y, and for 3-D also L_z > L_x and L_z < L_x), one with a side
         # difference of 2 where it is cheap, and both parities
@@ -55,15 +57,15 @@ def sizes(cls: str, tier: str) -> List[Tuple[int, ...]]:
             'Color666ToricCode': [(2, 2)],
             'Color488Code': [(2, 2), (3, 3), (2, 3), (3, 2)],
             'Color3DCode': [(2, 2, 2)],
-            'Toric3DCode': [(2, 2, 2), (2, 3, 2), (3, 2, 4), (2, 2, 3), (3, 2, 2)],
-            'Planar3DCode': [(2, 2, 2), (2, 3, 2), (3, 2, 3), (2, 2, 3), (3, 2, 2)],
-            'RotatedPlanar3DCode': [(2, 2, 2), (2, 3, 2), (3, 3, 2), (3, 4, 3), (2, 2, 3), (3, 2, 2)],
-            'RotatedToric3DCode': [(2, 2, 2), (3, 2, 2), (2, 3, 2), (3, 4, 2), (2, 2, 3)],
+            'Toric3DCode': [(2, 2, 2), (2, 3, 2), (3, 2, 4), (2, 2, 3), (3, 2, 2), (2, 4, 2)],
+            'Planar3DCode': [(2, 2, 2), (2, 3, 2), (3, 2, 3), (2, 2, 3), (3, 2, 2), (2, 4, 2), (4, 2, 2), (2, 2, 4)],
+            'RotatedPlanar3DCode': [(2, 2, 2), (2, 3, 2), (3, 3, 2), (3, 4, 3), (2, 2, 3), (3, 2, 2), (2, 4, 2), (4, 2, 2), (2, 2, 4)],
+            'RotatedToric3DCode': [(2, 2, 2), (3, 2, 2), (2, 3, 2), (3, 4, 2), (2, 2, 3), (2, 4, 2), (4, 2, 2), (2, 2, 4)],
             'RhombicToricCode': [(2, 2, 2), (2, 4, 2), (4, 2, 2), (2, 2, 4)],
-            'RhombicPlanarCode': [(2, 2, 2), (2, 3, 2), (3, 2, 3), (2, 2, 3), (3, 2, 2)],
-            'XCubeCode': [(2, 2, 2), (2, 3, 2), (3, 2, 2), (2, 2, 3)],
-            'HollowPlanar3DCode': [(2, 2, 2), (2, 3, 2), (3, 3, 3), (2, 2, 3), (3, 2, 2)],
-            'HollowRhombicCode': [(2, 2, 3), (2, 3, 3), (3, 2, 4), (3, 2, 3), (2, 2, 4)],
+            'RhombicPlanarCode': [(2, 2, 2), (2, 3, 2), (3, 2, 3), (2, 2, 3), (3, 2, 2), (2, 4, 2), (4, 2, 2), (2, 2, 4)],
+            'XCubeCode': [(2, 2, 2), (2, 3, 2), (3, 2, 2), (2, 2, 3), (2, 4, 2)],
+            'HollowPlanar3DCode': [(2, 2, 2), (2, 3, 2), (3, 3, 3), (2, 2, 3), (3, 2, 2), (2, 4, 2), (2, 2, 4), (4, 3, 2), (4, 2, 3)],
+            'HollowRhombicCode': [(2, 2, 3), (2, 3, 3), (3, 2, 4), (3, 2, 3), (2, 2, 4), (4, 2, 3), (4, 3, 3)],
         }
         return [s for s in table[cls] if in_family(cls, s)]
     hi = 6 if dim == 2 else 4
